@@ -16,6 +16,9 @@ use url::Url;
 pub struct RequestInfo {
     pub id: usize,
     pub url: String,
+    /// The URL the caller asked for: differs from `url` on the second and later hops of a
+    /// followed redirect chain.
+    pub origin_url: String,
     pub client: u32,
     pub follows_redirects: bool,
     /// Absolute simulated deadline (ns) if the client has a timeout.
@@ -312,11 +315,12 @@ fn register(info: RequestInfo, plan: Plan) -> usize {
     })
 }
 
-pub(crate) fn start_request(client: &Client, url: &Url, deadline: Option<u64>) -> ReqHandle {
+pub(crate) fn start_request(client: &Client, url: &Url, origin: &Url, deadline: Option<u64>) -> ReqHandle {
     let now = simkit::now();
     let info = RequestInfo {
         id: NET.with(|n| n.borrow().reqs.len()),
         url: url.as_str().to_string(),
+        origin_url: origin.as_str().to_string(),
         client: client.id,
         follows_redirects: client.follow,
         deadline,
@@ -371,6 +375,7 @@ pub fn response_from_plan(url: &str, plan: Plan) -> crate::Response {
     let info = RequestInfo {
         id: 0,
         url: url.to_string(),
+        origin_url: url.to_string(),
         client: 0,
         follows_redirects: false,
         deadline: None,
